@@ -57,6 +57,12 @@ CLAIMED = {
  "C19": dict(cat="proof", tech="constant folding of the two enums; symbolic exploration of FraudScores.__init__/from_labels (state on every path, raise-condition set); override scan of the class body",
    text="Translations are mutually inverse on all members and values; every normal constructor path leaves exactly the Scores state of the claimed view and the raise conditions are exactly the two out-of-[0,1] tests; no query method is overridden, so every query is Scores' code on that state; from_labels splits by ==/!= genuine_label and forwards all parameters.",
    ref="DESIGN §4 C19"),
+ "C17": dict(cat="other", tech="symbolic extraction of the crossing mask and appended values from the parametric loops; exact evaluation of the predicates over all weak orderings of (y_j, y_j+1, t); rank inference; polynomial identity of the interpolation; stubbed threshold_at_metric",
+   text="Over all 13 weak orderings a reported crossing implies y_j != y_j+1 and lambda in [0,1) (each touching point attributed to one segment, no zero division), up/down predicates are disjoint and no interior solution is missed; z solves the interpolant identically; every appended value has rank 0; the fallback is x[argmin|y-t|] iff no crossing; threshold_at_metric feeds one points value to x and to the metric for its three point modes and resolves names on type(self).",
+   ref="DESIGN §4 C17"),
+ "C18": dict(cat="other", tech="abstract evaluation of showbias with stubbed group_cm/cm/bootstrap helpers over 12 option combinations: data flow into GroupScores.from_labels, key-codec analysis, normalisation formula and reduced-axis role at both call sites, value-number equality of theta_hat and reported values, shared labels; C12 prerequisites",
+   text="Inputs (scores, labels, groups, pos_label, score_class, equal_class) reach GroupScores.from_labels; values are the requested metric of group_cm, divided by the metric of cm or by the minimum over groups unless 0; the row index is built from score_object.groups and columns are the thresholds; replicates pass through the same normalisation, theta_hat equals the reported values, lower/upper share the labels. Two genuine defects are recorded as known findings (lossy '_' key codec; by_min reduces the replicate axis).",
+   ref="DESIGN §4 C18"),
  "C20": dict(cat="other", tech="closed-form reduction of the scipy.stats.norm calls to the standard normal with inverse-pair identities; polynomial identities for the joint Bernoulli table; count terms of the non-random branches",
    text="fnr/threshold_at_fnr and fpr/threshold_at_fpr compose to the identity in both orders, roc() rates are the model's rates at its thresholds, from_metrics reproduces the requested operating point and sizes, sample() sizes sum to n with the model's direction, non-random Bernoulli draws floor(n p) ones, the joint table sums to 1 with marginals p1, p2 under the decoding, equals the documented a, raises exactly on a negative entry and uses floor counts with the remainder in the last cell. Random branches are not decided.",
    ref="DESIGN §4 C20"),
